@@ -155,6 +155,7 @@ class Batch(object):
         self.next_idx = 0
         self.t0 = time.monotonic()
         self.truncated = False
+        self.cover = True
 
     def make_scenario(self, idx):
         s = scenario_seed(self.seed, self.prop, idx)
@@ -163,6 +164,8 @@ class Batch(object):
         sc['seed'] = s
         sc['tier'] = self.tier
         sc['hashseeds'] = list(self.hashseeds)
+        if idx % 8 == 0 and self.cover:
+            sc['cover'] = True
         return sc
 
     def _take(self):
@@ -186,7 +189,7 @@ class Batch(object):
                     break
                 sc = self.make_scenario(i)
                 try:
-                    tag, val = w.call(('exec', self.prop, sc))
+                    tag, val = w.call(('exec', self.prop, sc), timeout=900)
                 except WorkerDied as e:
                     with self.lock:
                         self.errors.append('scenario %d (seed %d): %s' % (i, sc['seed'], e))
@@ -268,6 +271,7 @@ def run_check(prop, tier, verif_seed, repo, jobs, count=None, wallcap=None, shri
         status = 2
     # ---- aggregate
     agg = {}
+    lines_reached = set()
     shapes = set()
     schedules = set()
     nontrivial_shapes = set()
@@ -278,7 +282,9 @@ def run_check(prop, tier, verif_seed, repo, jobs, count=None, wallcap=None, shri
         r = b.results[i]
         st = r.get('stats', {})
         merge_counts(agg, dict((k, v) for k, v in st.items()
-                               if k not in ('shape', 'schedule', 'sample', 'nontrivial')))
+                               if k not in ('shape', 'schedule', 'sample', 'nontrivial', 'lines')))
+        for x in st.get('lines', []):
+            lines_reached.add(tuple(x))
         if 'shape' in st:
             shapes.add(st['shape'])
             if st.get('nontrivial'):
@@ -389,7 +395,13 @@ def run_check(prop, tier, verif_seed, repo, jobs, count=None, wallcap=None, shri
             'probes': dict((k, agg.get('probes', {})[k]) for k in sorted(agg.get('probes', {}))),
             'oracle_checks': dict((k, agg.get('checks', {})[k])
                                   for k in sorted(agg.get('checks', {}))),
-            'repo_lines_reached': agg.get('lines_reached_note', 'see selftest coverage run'),
+            'repo_lines_reached': len(lines_reached),
+            'repo_lines_reached_by_file': dict(
+                (f, sum(1 for (g, _) in lines_reached if g == f))
+                for f in sorted(set(g for (g, _) in lines_reached))),
+            'repo_lines_note': 'distinct (file, line) pairs of /repo/trees/*.py and the treetools '
+                               'script executed inside simulated processes (sys.monitoring LINE '
+                               'events, every 8th scenario)',
             'truncated_by_wall_cap': b.truncated,
             'harness_errors': len(b.errors),
             'known_findings_seen': known_seen,
